@@ -407,3 +407,49 @@ pub fn refused_writes(which: u64) {
         }
     });
 }
+
+/// A whole (small) stream whose write the sink refuses at its `k`-th operation, made on the calling
+/// thread: the STREAMINFO of that stream differs from every stream of the universe (rate, width, MD5),
+/// so whatever the refused write leaves behind shows in the next serialisation if it reaches it.
+pub fn refused_stream_write(k: usize, minimal: bool) {
+    use crate::bitmodel::{FailingSink, Flavour};
+    thread_local! {
+        // encoded once per thread (single-thread mode); the refused write is what is repeated
+        static OTHER: std::cell::RefCell<Option<Stream>> = const { std::cell::RefCell::new(None) };
+    }
+    let _ = panicx::catch(|| {
+        OTHER.with(|o| {
+            let mut o = o.borrow_mut();
+            if o.is_none() {
+                let samples: Vec<i32> = (0..40).map(|t| (t * 37 % 211) - 100).collect();
+                let mut e = config::Encoder::default();
+                e.multithread = false;
+                if let Ok(cfg) = e.into_verified() {
+                    *o = flacenc::encode_with_fixed_block_size(&cfg, MemSource::from_samples(&samples, 1, 12, 7777), 32).ok();
+                }
+            }
+            if let Some(s) = o.as_ref() {
+                let _ = s.write(&mut FailingSink::new(k, if minimal { Flavour::Minimal } else { Flavour::Full }));
+            }
+        })
+    });
+}
+
+/// The stream serialised through the 64-bit word sink and through a user sink that implements only the
+/// required operations; both as bytes.
+pub fn stream_bytes_other_sinks(s: &Stream) -> Result<(Vec<u8>, Vec<u8>), EncFail> {
+    use flacenc::bitsink::MemSink;
+    match panicx::catch(|| {
+        let mut w = MemSink::<u64>::new();
+        s.write(&mut w).map_err(|e| format!("{e:?}"))?;
+        let mut wb = vec![0u8; (w.len() + 7) / 8];
+        w.write_to_byte_slice(&mut wb);
+        let mut m = crate::bitmodel::ModelSink::default();
+        s.write(&mut m).map_err(|e| format!("{e:?}"))?;
+        Ok::<_, String>((wb, crate::bitmodel::bytes_of_bits(&m.bits)))
+    }) {
+        Err(p) => Err(EncFail::Panic(p)),
+        Ok(Err(e)) => Err(EncFail::Error(format!("write: {e}"))),
+        Ok(Ok(b)) => Ok(b),
+    }
+}
